@@ -34,7 +34,10 @@ func sockAcceptFn(_ context.Context, mod api.Module, params []uint64) (errno sys
 
 	var connFD int32
 	if connFD, errno = fsc.SockAccept(fd, nonblock); errno == 0 {
-		mem.WriteUint32Le(resultFd, uint32(connFD))
+		if !mem.WriteUint32Le(resultFd, uint32(connFD)) {
+			_ = fsc.CloseFile(connFD)
+			return sys.EFAULT
+		}
 	}
 	return
 }
